@@ -44,6 +44,10 @@ import (
 
 const e2Password = "netpw"
 
+// e2PrivateRoutes is filled by a generated file (see bin/engines.py rewrite("routes")); the literal below is
+// only the fallback.
+var e2PrivateRoutes = [][2]string{{"GET", "/"}, {"GET", "/status"}, {"GET", "/config"}, {"POST", "/config"}, {"POST", "/kill"}}
+
 type e2Step struct {
 	At int64  `json:"at"` // virtual milliseconds after the workload phase starts
 	K  string `json:"k"`
@@ -890,8 +894,15 @@ func (r *e2Run) attacker(ctx context.Context) {
 		cancel()
 		// private routes
 		if r.choice("attacker/private", 3) == 0 {
-			routes := [][2]string{{"GET", "/"}, {"GET", "/status"}, {"GET", "/status/sessions"}, {"GET", "/status/irclog"}, {"GET", "/status/state"}, {"GET", "/status/getmessage"}, {"GET", "/irclog"}, {"GET", "/config"}, {"GET", "/leader"}, {"GET", "/metrics"},
-				{"POST", "/config"}, {"POST", "/kill"}, {"POST", "/join"}, {"POST", "/part"}, {"POST", "/raft/AppendEntries"}, {"POST", "/raft/RequestVote"}, {"POST", "/raft/InstallSnapshotStreaming"}, {"GET", "/nonexistent"}}
+			// the route table is extracted from the current dispatcher source at build time (e2PrivateRoutes);
+			// /quit is left out: reaching it terminates the process
+			var routes [][2]string
+			for _, rt := range e2PrivateRoutes {
+				if rt[1] != "/quit" {
+					routes = append(routes, rt)
+				}
+			}
+			routes = append(routes, [2]string{"GET", "/nonexistent"}, [2]string{"POST", "/nonexistent"}, [2]string{"DELETE", "/config"})
 			burst := 1
 			if r.choice("attacker/burst", 4) == 0 {
 				burst = 14 // rapid wrong passwords: the back-off must not turn into acceptance
